@@ -36,7 +36,9 @@ EXPLANATION = (
     "witnesses (N = 1..5 with every MAIO in 0..63, larger N around the multiples of N; HSN 0, 1, 63; frames covering every value "
     "of S and both sides of M' < N) and the value returned is compared with MA[(S + MAIO) mod N] computed by the checker from "
     "the reference table -- any differing witness is a counterexample inside the property's domain, whatever the constructor does "
-    "with its parameters (e.g. a MAIO applied by list slicing that does not wrap for MAIO >= N). Every rule group is a stage: "
+    "with its parameters (e.g. a MAIO applied by list slicing that does not wrap for MAIO >= N). Arms that no input of the "
+    "domain can take (assertions, defensive raises behind a bound the ranges guarantee) are excluded by interval evaluation of "
+    "their conditions; a parameter kept as a private copy is recognised by folding the constructor. Every rule group is a stage: "
     "a group that cannot be analysed is deferred and does not hide a violation recognised by another group.")
 ASSUMPTIONS = [
     "spec/hopping.json is a faithful transcription of TS 45.002 table 6.2.3 and of the algorithm of clause 6.2.3",
@@ -476,12 +478,48 @@ class PySide:
             raise AnalysisError("HoppingParams.__init__: expected (self, hsn, maio, ma), found %r" % (ps,))
         # roles by constructor position: which attribute keeps which parameter, which one the 2^NBIN mask
         self.attr = {}
+        folded = None
         for role, par in zip(("hsn", "maio", "ma"), ps):
             keys = [k for k, v in self.init_env.items() if k.startswith("self.") and v == V(par)]
+            if len(keys) != 1:
+                # not stored verbatim (e.g. a private copy `list(ma)`): the role is decided by what the constructor
+                # stores, folded for two witnesses -- the attribute whose value equals the parameter's value
+                if folded is None:
+                    folded = self._fold_roles(ps)
+                keys = folded.get(par, [])
             if len(keys) != 1:
                 raise AnalysisError("HoppingParams.__init__: parameter `%s` (%s) is stored in %d attributes; unclassifiable" % (
                     par, role, len(keys)))
             self.attr[role] = keys[0]
+        self.ma_par = V(ps[2])
+
+    ROLE_WITNESSES = ((37, 11, [(5, 6), (1, 2), (3, 4)]),
+                      (5, 2, [(90, 91), (70, 71), (80, 81), (20, 21), (10, 11)]))
+
+    def _fold_roles(self, ps):
+        """parameter -> attributes that hold exactly the parameter's value (a sequence: the same elements in the same
+        order) after the constructor was folded for each witness; {} when the constructor leaves the folder's vocabulary"""
+        out = None
+        for wit in self.ROLE_WITNESSES:
+            ev = Ev(self.repo, self.mod, env={p: (list(w) if isinstance(w, list) else w) for p, w in zip(ps, wit)},
+                    self_cls=self.ci)
+            try:
+                ev.run_block(self.init.body)
+            except (Unknown, Raised, TypeError, ValueError, ArithmeticError, LookupError, AttributeError, RecursionError):
+                return {}
+            one = {}
+            for p, w in zip(ps, wit):
+                for k, v in ev.env.items():
+                    if not (isinstance(k, str) and k.startswith("self.")):
+                        continue
+                    if isinstance(w, list):
+                        same = isinstance(v, (list, tuple)) and list(v) == w
+                    else:
+                        same = type(v) is type(w) and v == w
+                    if same:
+                        one.setdefault(p, set()).add(k)
+            out = one if out is None else {p: out.get(p, set()) & one.get(p, set()) for p in ps}
+        return {p: sorted(v) for p, v in (out or {}).items()}
 
     def _writers(self):
         # single writer of the hopping attributes over the whole toolkit
@@ -507,7 +545,7 @@ class PySide:
         sym = G.PySym(self.repo, self.mod, self.ci)
         self.raw = sym.result(sym.run(fd))
         A = self.attr
-        ma_par = self.init_env[A["ma"]]
+        ma_par = self.ma_par
         # the mask attribute, by role: an attribute the constructor stores (other than hsn/maio/ma) that
         # resolve() combines with `&` -- however its value is written
         others = {k for k in self.init_env if k.startswith("self.") and k not in (A["hsn"], A["maio"], A["ma"])}
@@ -706,7 +744,7 @@ def r2_py_mask(L, repo, py):
             vals.append((n, v))
         mask_verdict(L, F_GSM, "HoppingParams.__init__", "the attribute resolve() applies with `&`", vals, py.init.lineno,
                      structure(py.pnm_init))
-        ma_par = py.init_env[py.attr["ma"]]
+        ma_par = py.ma_par
         pn = py.init_env[py.attr["pnm"]]
         deps = sorted(x[1] for x in variables(pn) if x != ma_par)
         L.ob("C07.R2", F_GSM, "HoppingParams.__init__",
@@ -769,9 +807,30 @@ def spec_c():
     return spec_terms(FN, V("T1"), V("T2"), V("T3"))
 
 
+def prune_unreachable(L, func, term, rng, rntable):
+    """arms that cannot be taken for any input of the property's domain (a defensive `raise` behind a bound that the
+    ranges already guarantee, an assertion that always holds) do not take part in the comparison: their conditions
+    are decided by intervals over the domain box (sound, no enumeration); undecided conditions stay in the term"""
+    def ren(t):
+        if t == ("call", "len", RN):
+            return C(len(rntable))
+        return None
+    log = []
+    out = G.prune(G.renorm(term, ren, band_pnm), rng, {RN: rntable}, band_pnm, log)
+    if log:
+        L.extra.setdefault("unreachable_arms", {})[func] = sorted(
+            {"%s is always %s" % (G.show(c)[:160], "true" if v else "false") for c, v in log})
+    return out
+
+
+DOMAIN_BOX = {HSN: (0, 63), MAIO: (0, 63), N: (1, 64), P: (2, 128), FN: (0, G.HYPERFRAME - 1),
+              V("T1"): (0, 2047), V("T2"): (0, 25), V("T3"): (0, 50)}
+
+
 def settle_py(L, py, rntable):
     """the simulator's term with its conditional subtractions settled and inside the vocabulary of the specification term;
     the formula, T1R, index and return-path rules read it (none of them gives a verdict on a term with opaque parts)"""
+    py.term = prune_unreachable(L, "HoppingParams.resolve", py.term, DOMAIN_BOX, rntable)
     py.term = settle_reductions(L, F_GSM, "HoppingParams.resolve", py.term, py.resolve.lineno, rntable, spec_py()["names"])
     check_vocabulary(py.term, "HoppingParams.resolve")
     return py
@@ -779,6 +838,7 @@ def settle_py(L, py, rntable):
 
 def settle_c(L, cs, rntable):
     """same for the firmware's term"""
+    cs.term = prune_unreachable(L, cs.HOP, cs.term, DOMAIN_BOX, rntable)
     cs.term = settle_reductions(L, F_RFCH, cs.HOP, cs.term, cs.tu.line(cs.f), rntable, spec_c()["names"])
     check_vocabulary(cs.term, cs.HOP)
     return cs
@@ -1089,7 +1149,9 @@ def r7_witnesses(L, repo, spec):
     try:
         for n in WITNESS_FULL_N + WITNESS_EDGE_N:
             full = n in WITNESS_FULL_N
-            ma = [(1805200 + 200 * i, 1710200 + 200 * i) for i in range(n)]
+            # distinct channels in an order that is neither ascending nor descending: an allocation that the
+            # constructor sorts, reverses or rotates selects another channel on some witness
+            ma = [(1805200 + 200 * c, 1710200 + 200 * c) for c in ((i * 37 + 11) % 101 for i in range(n))]
             for mode, hsns in (("cyclic hopping (HSN 0): MA[(FN + MAIO) mod N]", (0,)),
                                ("pseudo-random hopping (HSN %s): MA[(S + MAIO) mod N]" % ", ".join(map(str, WITNESS_HSN)),
                                 WITNESS_HSN)):
